@@ -385,8 +385,12 @@ def _scan_summary(repo: Any, fi: Any) -> set:
     paths = ev.tabulate(fi, {pars[0]: Opaque('c'), pars[1]: Opaque('i')}, Obj((fi.module, fi.cls), {}))
     pre = f'{fi.module}:{fi.cls}.'
     scan = {k[:-len(" == '\\\\'")] for p in paths for k in p.decisions if k.endswith(" == '\\\\'")}
+    if not scan:
+        # no backslash arm (that is a finding of the comparison, not an obstacle): the scan character is what is compared with `[` / `)`
+        scan = {k[:-len(" == '['")] for p in paths for k in p.decisions if k.endswith(" == '['")} or \
+               {k[:-len(" == ')'")] for p in paths for k in p.decisions if k.endswith(" == ')'") and not k.startswith('loop@')}
     if len(scan) != 1:
-        raise AnalysisError(f'{fi.qualname}: the scan character (the value compared with a backslash) is not unique: {sorted(scan)}')
+        raise AnalysisError(f'{fi.qualname}: the scan character is not unique: {sorted(scan)}')
     S = next(iter(scan))
     rows = set()
     for p in paths:
